@@ -343,6 +343,17 @@ def reraise_control():
     eng = core.Engine.cur
     if eng is not None: eng.poison(e)
     raise e
+  note_exc()
+
+
+def note_exc():
+  e = sys.exc_info()[1]
+  if isinstance(e, (TypeError, AttributeError)):
+    m = str(e)
+    if 'Sym' in m and ('SymInt' in m or 'SymBytes' in m or 'SymStr' in m or 'SymBool' in m or 'SymDict' in m or 'SymSet' in m):
+      eng = core.Engine.cur
+      if eng is not None and eng.poisoned is None:
+        eng.poison(Inconclusive("a POX exception handler swallowed a proxy type error: %s: %s" % (type(e).__name__, m[:200])))
 
 
 # ---- containers keyed by possibly-symbolic values ---------------------------------------------------
